@@ -41,6 +41,12 @@ pub async fn audit_verify<TC: Configuration>(
             proof.proofs.len()
         ))));
     }
+    if proof.epochs.windows(2).any(|w| w[0].checked_add(1) != Some(w[1])) {
+        return Err(AkdError::AuditErr(AuditorError::VerifyAuditProof(format!(
+            "The epochs of the proof are not consecutive: {:?}",
+            proof.epochs
+        ))));
+    }
     for i in 0..hashes.len() - 1 {
         let start_hash = hashes[i];
         let end_hash = hashes[i + 1];
